@@ -462,7 +462,9 @@ class Machine:
         if lay == "far":
             # >= 40 (isotropic) length scales away from every conditioning point
             m = self.spec["model"]
-            scale = m["len_scale"] * max([1.0] + list(m["anis"]))
+            # (the correlation length in use is len_scale / rescale)
+            scale = m["len_scale"] / min(1.0, m.get("rescale") or 1.0) * max(
+                [1.0] + list(m["anis"]))
             d = np.array((list(op.get("dir", [1.0])) + [1.0] * self.dim)[: self.dim])
             d = d / np.linalg.norm(d)
             n = max(1, int(op.get("n_far", 1)))
